@@ -55,6 +55,18 @@ Theorem md001_reports_headings : forall lvs ln, In ln (must (md001 lvs)) -> exis
 Proof. intros lvs ln H. exact (md001_go_in (headings lvs) None ln H). Qed.
 Print Assumptions md001_reports_headings.
 
+(* MD004 with a fixed style reports exactly the unordered lists with another marker, at their first line; with the
+   consistent style nothing is reported when all unordered lists share one marker *)
+Theorem md004_fixed_exact : forall c lsts ln,
+  In ln (must (md004 (K4Fixed c) lsts)) <-> exists l, In l lsts /\ l_ord l = false /\ l_delim l <> c /\ l_sl l = ln.
+Proof. exact md004_fixed_exact_l. Qed.
+Print Assumptions md004_fixed_exact.
+
+Theorem md004_consistent_quiet : forall lsts c,
+  (forall l, In l lsts -> l_ord l = false -> l_delim l = c) -> must (md004 K4Consistent lsts) = [].
+Proof. exact md004_consistent_quiet_l. Qed.
+Print Assumptions md004_consistent_quiet.
+
 (* non-vacuity: the specification on a small document *)
 Example c06_example :
   let doc := [[35; 32; 97]; [35; 35; 35; 32; 98]; []; []; []]%N in   (* "# a" / "### b" / three blank pieces *)
